@@ -5,7 +5,7 @@
    Proofs: Proofs/Glue_*.v.  No property file depends on this file; the property files carry one bridge
    theorem each (C03, C10, C15, C16, C17, C18, C19). *)
 From PV Require Import Lib.Base.
-From PV Require Proofs.Glue_certs Proofs.Glue_enc_certs.
+From PV Require Proofs.Glue_certs Proofs.Glue_enc_certs Proofs.Glue_xsw.
 Open Scope N_scope.
 
 (* ====================================================================================================
@@ -161,3 +161,107 @@ Theorem Glue_ciphertext_keys_from_loaded_documents :
 Proof. exact ciphertext_keys_from_loaded_documents. Qed.
 Print Assumptions Glue_ciphertext_keys_from_loaded_documents.
 End G1.
+
+(* ====================================================================================================
+   2. symbolic documents and the enveloped-signature pre-check: Model/Xmlsec.v (C10, C16) vs Model/Xsw.v
+      (C01) vs Model/Request.v enveloped_ok vs Model/MdSig.v md_precheck.  [emb]: an Xmlsec document as an Xsw
+      document (element names + 1: Xsw keeps name 0 for ds:Signature; an embedded signature has no ID, payload
+      or element children); pol_of: dupfail = DupFail, first-wins = DupFirst. *)
+Module G2.
+Import Glue_xsw.
+
+(* the tool: same verdict (any document whose root is an element, any name, any / no node id, any certificate) *)
+Theorem Glue_tool_verify_agrees :
+  forall dupfail doc nm i cert,
+    M.is_sig doc = false ->
+    X.tool_verify (pol_of dupfail) (emb doc) (nm' nm) i cert = M.tool_verify dupfail doc nm i cert.
+Proof. exact tool_verify_emb. Qed.
+Print Assumptions Glue_tool_verify_agrees.
+
+(* the building blocks commute with the embedding: sub-trees, first signature, ID table, digests, enveloped transform *)
+Theorem Glue_document_functions_commute :
+  (forall p t, X.subtree_at p (emb t) = option_map emb (M.subtree_at p t)) /\
+  (forall t, X.first_sig (emb t) = M.first_sig t) /\
+  (forall nm t, X.registered (nm' nm) (emb t) = M.registered nm t []) /\
+  (forall a b, X.tree_eqb (emb a) (emb b) = M.tree_eqb a b) /\
+  (forall p t, X.remove_at p (emb t) = emb (M.remove_at p t)) /\
+  (forall v t, RQ.count_id v t = List.length (X.carriers v (emb t))).
+Proof.
+  split; [exact subtree_emb|]. split; [exact first_sig_emb|]. split; [exact registered_emb_root|].
+  split; [exact tree_eqb_emb|]. split; [exact remove_at_emb|exact count_id_emb].
+Qed.
+Print Assumptions Glue_document_functions_commute.
+
+(* the pre-check requests go through (C10) IS the pre-check C01 is proved about *)
+Theorem Glue_request_precheck_is_C01_precheck :
+  forall doc nm i, X.precheck (emb doc) (nm' nm) i = RQ.enveloped_ok doc nm i.
+Proof. exact enveloped_ok_is_xsw_precheck. Qed.
+Print Assumptions Glue_request_precheck_is_C01_precheck.
+
+(* Xmlsec.precheck ALONE (without Request.v's count of carriers) is implied by it ... *)
+Theorem Glue_xmlsec_precheck_is_weaker :
+  forall doc nm i, X.precheck (emb doc) (nm' nm) i = true -> M.precheck doc nm i = true.
+Proof. exact xsw_precheck_implies_xmlsec_precheck. Qed.
+Print Assumptions Glue_xmlsec_precheck_is_weaker.
+
+(* ... and strictly weaker: the ID of the AuthnRequest also on an element of another name.  The library refuses
+   this document (_enveloped_signature_ok counts carriers of any name): Xmlsec.precheck / Xmlsec.check_signature_x
+   are NOT the code; no property uses them without the count. *)
+Theorem Glue_xmlsec_precheck_disagreement_witness :
+  M.precheck foreign_carrier_doc 1 (Some (s2l "a-1")) = true /\
+  M.tool_verify true foreign_carrier_doc 1 (Some (s2l "a-1")) 5 = true /\
+  M.check_signature_x true foreign_carrier_doc 1 (Some (s2l "a-1")) [5] = true /\
+  X.precheck (emb foreign_carrier_doc) (nm' 1) (Some (s2l "a-1")) = false /\
+  RQ.enveloped_ok foreign_carrier_doc 1 (Some (s2l "a-1")) = false.
+Proof. exact xmlsec_precheck_weaker_witness. Qed.
+Print Assumptions Glue_xmlsec_precheck_disagreement_witness.
+
+(* _check_signature after certificate selection: one verdict *)
+Theorem Glue_check_signature_x_agrees :
+  forall dupfail doc nm i certs,
+    X.check_signature_x (pol_of dupfail) (emb doc) (nm' nm) i certs =
+    RQ.enveloped_ok doc nm i && existsb (M.tool_verify dupfail doc nm (RQ.node_id_arg i)) certs.
+Proof. exact check_signature_x_emb. Qed.
+Print Assumptions Glue_check_signature_x_agrees.
+
+(* C01_relied_is_covered for requests: a signed request that passes the signature check is covered in C01's sense -
+   non-empty ID carried by NO other node of the document, exactly one Signature child, first in document order,
+   single reference to that ID, intact value under one of the certificates selected for the issuer, digest = the
+   request element minus that child *)
+Theorem Glue_request_relied_is_covered :
+  forall c d nm ovc,
+    RQ.check_sig true true c d nm ovc = Ok tt ->
+    exists certs v Xn k D,
+      RQ.request_certs c d = Ok certs /\ RQ.root_id (RQ.d_tree d) = Some v /\
+      XL.covered (emb (RQ.d_tree d)) (nm' nm) v certs [] Xn k D /\ Xn = emb (RQ.d_tree d).
+Proof. exact request_relied_is_covered. Qed.
+Print Assumptions Glue_request_relied_is_covered.
+
+Theorem Glue_parse_request_relied_is_covered :
+  forall c k b w d,
+    RQ.parse_request true true c k b w = Ok (Some d) -> RQ.root_signed (RQ.d_tree d) = true ->
+    exists certs v Xn j D,
+      RQ.request_certs c d = Ok certs /\ RQ.root_id (RQ.d_tree d) = Some v /\
+      XL.covered (emb (RQ.d_tree d)) (nm' (RQ.kind_name k)) v certs [] Xn j D /\ Xn = emb (RQ.d_tree d).
+Proof. exact parse_request_relied_is_covered. Qed.
+Print Assumptions Glue_parse_request_relied_is_covered.
+
+(* C01_accepted_content_was_signed for requests: the attacker cannot forge values of protected keys (C01's
+   derivability invariant) => what the receiver relies on was signed by a protected key's owner under that ID *)
+Theorem Glue_request_accepted_content_was_signed :
+  forall protected (signed : list (str * X.tree) -> Prop) c d nm ovc,
+    RQ.check_sig true true c d nm ovc = Ok tt ->
+    XL.derivable protected signed (emb (RQ.d_tree d)) ->
+    (forall certs x, RQ.request_certs c d = Ok certs -> In x certs -> In x protected) ->
+    exists v k D, RQ.root_id (RQ.d_tree d) = Some v /\
+      D = X.with_kids (emb (RQ.d_tree d)) (X.remove_nth k (X.t_kids (emb (RQ.d_tree d)))) /\ signed [(X.HASH :: v, D)].
+Proof. exact request_accepted_content_was_signed. Qed.
+Print Assumptions Glue_request_accepted_content_was_signed.
+
+(* metadata (C16): md_precheck = a reference to the whole document, or C01's pre-check for the root under its own name *)
+Theorem Glue_md_precheck_char :
+  forall n i pl kids,
+    MD.md_precheck (M.El n i pl kids) = whole_ref (M.El n i pl kids) || X.precheck (emb (M.El n i pl kids)) (nm' n) i.
+Proof. exact md_precheck_char. Qed.
+Print Assumptions Glue_md_precheck_char.
+End G2.
